@@ -2561,6 +2561,11 @@ var c15Mutants = []Mutant{
 	{Name: "tag-schema-nonempty-list-dropped", File: "registry/remote/repository.go",
 		Old: "\tif len(filtered) == 0 {\n\t\treturn nil\n\t}\n\treturn fn(filtered)", New: "\tif len(filtered) != 0 {\n\t\treturn nil\n\t}\n\treturn fn(filtered)",
 		Expect: "C15.R3"},
+	// generic error-discipline rule (errdiscipline.go): a failure branch that returns success
+	{Name: "ed-limit-error-returns-nil", File: "registry/remote/repository.go",
+		Old:    "\t\treturn ocispec.Descriptor{}, nil, fmt.Errorf(\"failed to read referrers index from referrers tag %s: %w\", referrersTag, err)",
+		New:    "\t\treturn ocispec.Descriptor{}, nil, nil",
+		Expect: "C15.ED.error-surfaces"},
 	{Name: "referrers-page-ignores-configured-limit", File: "registry/remote/repository.go",
 		Old:    "\tlr := limitReader(resp.Body, r.MaxMetadataBytes)\n\tif err := json.NewDecoder(lr).Decode(&index); err != nil {",
 		New:    "\tlr := limitReader(resp.Body, 0)\n\tif err := json.NewDecoder(lr).Decode(&index); err != nil {",
